@@ -703,3 +703,45 @@ _add_rt("C17", "fault sequences (SubscribeFaults.lean): the SOURCE raising from 
                "sequences of length <= 3 (correspondence + direct oracle with position-tagged error messages).",
         "AsyncMap defines no aclose / athrow (`__slots__ = (source_stream, map_value)`): closing is exercised only where a stream object offers it (none "
         "today); crashing events of the random streams remain outside the model comparison (direct oracle only).")
+
+
+def _add_rt2(k, text=None, note=None):
+    if text:
+        CHECKS[k]["text"] = CHECKS[k]["text"].rstrip() + " ADDED IN THE SECOND RUNTIME ROUND: " + text
+    if note:
+        CHECKS[k]["note"] = CHECKS[k].get("note", "").rstrip() + " " + note
+
+
+_add_rt2("C08", "finding E2 is INSIDE the model (AsyncExecE2.lean): a list field whose completion raises ResolverError after earlier items were completed "
+                "(lazy iterable raising mid-iteration / abstract entry whose resolve_type raises) leaves the earlier items' Futures ORPHANED - their tasks stay "
+                "in the pool queue, their callbacks still add errors to the shared executor, the response is assembled when the ROOT Future finishes. "
+                "Props/C08_e2.lean: e2_blocking_reports_every_item_error (BlockingExecutor, every operation of the form: errors = before ++ every error of "
+                "every earlier item ++ the list's own ++ after), e2_deferred_loses_item_error / e2_deferred_may_keep_item_error (same operation, two completion "
+                "orders), e2_alone_schedule_irrelevant + e2_alone_loses_deferred_item_errors (no sibling root field: lost in EVERY schedule), "
+                "async_eq_blocking_e2_refuted. Tied by driver ops e2-async / e2-blocking and the deterministic stage e2-model (112 operations, EVERY completion "
+                "order on the manual executor + BlockingExecutor, ~2 250 runs per check: status, data, error multiset, queue sizes, call/done trace). "
+                "Props/C08_race_n.lean: gather_nonatomic_lost_update_general / gather_terminates_nonatomic_refuted_every_n - the lost update of the non-atomic "
+                "`done += 1` for EVERY n >= 2 workers and every number of plain entries (all LOADs, all STOREs, all TESTs: n - 1 increments lost, aggregate never set).",
+         "E2 (known finding) is now modelled for the form `before / failing list field with a synchronous resolver / after` on the thread-pool algebra; a failing "
+         "list below a DEFERRED resolver, failing completions nested deeper, and asyncio (where the orphaned coroutines are never awaited: always lost) stay "
+         "oracle-only. General statements for the deferred side with siblings (data equal, errors a sub-multiset of BlockingExecutor's) are not proved - witnesses "
+         "and the sibling-free case only.")
+_add_rt2("C09", "today's LOOP form of execute_fields_serially (`while True` + inline/ran hand-over; AsyncExecLoop.lean: serialLoop, applyContL) against the "
+                "RECURSIVE form all other C09 theorems are about: serial_loop_eq_recursive_call (same executor state, same Future up to unwrap_future, per call) "
+                "and serial_loop_eq_recursive_run (EVERY operation, EVERY completion order: Loop.runAsync = runAsync - outcome with the error list in order, "
+                "call/done trace, queue sizes), via Lemmas/ExecLoop.lean (nodes below the serial spine carry no serial callback and are preserved by every "
+                "combinator and by deliver). Driver op async-loop: the loop model is compared with the real executors on every mutation run (~3 800 per check).",
+         "With serial_loop_eq_recursive_run the residual 'the model's _next is the recursive form' is closed for ATOMIC completions; the lock of the loop "
+         "form (cb on another thread between map_value returning and the hand-over) is exercised by interleaving_stage only.")
+_add_rt2("C16", "named probe abort-nested-coroutines (corr/C16_cancel.py; hunt round 2, C16-1): graphql() on asyncio with coroutine resolvers only, a root field "
+                "raising ExecutionError next to an object / nested object / list field with coroutine children, every offset -1..+4 of loop ticks between the "
+                "two, both document orders, leaves returning at once or one tick later (125 schedules quick / 184 thorough); oracle: every started field hook "
+                "gets exactly one end hook, inside the execution stage. Stages of the check run under the wall-clock backstop C08_world.run_stages "
+                "(c16:never-completes:stage:<name>).",
+         "Known finding N7 (c16:abort-nested-coroutines:asyncio:child:end-missing): children cancelled BEFORE the first step of their task never run the body "
+         "of map_value._await_value, hence no on_field_end; proposed_fixes/C16-N7.patch (gather_values awaits a shielded gather and cancels its members itself, "
+         "once they have been entered) passes the unedited suite and the C08/C09/C16/C17 checks; the entry goes when it is committed. asyncio task scheduling "
+         "and cancellation are NOT in the Lean trace model (it is the callback algebra of the thread pool): this class is oracle-only.")
+_add_rt2("C17", "the stages of the check (fault-sequences, exhaustive, random) run under the wall-clock backstop C08_world.run_stages: a tree that blocks the "
+                "loop's thread inside one iteration (where the progress-based bounds never get control) yields c17:never-completes:stage:<name> after the cap "
+                "and the check finishes (mutation trial: AsyncMap.__anext__ waiting on a threading.Event - reported in 102 s).", None)
